@@ -275,6 +275,14 @@ func (e Engine) Generate(prop, tier string, run int, seed uint64) *kernel.Scenar
 	}
 	own := r.Intn(n)
 	app := r.Intn(2)
+	if wr := kernel.NewRand(kernel.Derive(seed, "wide-channel")); wr.Bool(0.03) {
+		// a big channel: many participants and assets, states of several KiB
+		n = []int{16, 64, 64}[wr.Intn(3)]
+		own = wr.Intn(n)
+		sc.Config["wide_assets"] = 8
+	}
+	wideAssets = int(sc.Config["wide_assets"])
+	defer func() { wideAssets = 0 }()
 	sc.Config["n"], sc.Config["own"], sc.Config["app"] = int64(n), int64(own), int64(app)
 	maxLen := map[string]int{"C01/quick": 40, "C01/thorough": 120, "C09/quick": 40, "C09/thorough": 150}[prop+"/"+tier]
 	switch prop {
@@ -287,7 +295,10 @@ func (e Engine) Generate(prop, tier string, run int, seed uint64) *kernel.Scenar
 	}
 	// a marathon: far more promotions than any history buffer or counter of the
 	// machine is likely to be sized for, before the drawn program goes on
-	if mr := kernel.NewRand(kernel.Derive(seed, "marathon")); mr.Bool(0.04) {
+	if sc.Config["wide_assets"] > 0 && len(sc.Steps) > 30 {
+		sc.Steps = sc.Steps[:30] // (64 signatures per state: keep big channels short)
+	}
+	if mr := kernel.NewRand(kernel.Derive(seed, "marathon")); sc.Config["wide_assets"] == 0 && mr.Bool(0.04) {
 		pre := []kernel.Step{kernel.St("init", "kind", "valid", "r", int64(mr.Uint64()>>2)), kernel.St("advance")}
 		for k := mr.Range(130, 180); k > 0; k-- {
 			pre = append(pre, kernel.St("update", "kind", "valid", "r", int64(mr.Uint64()>>2)), kernel.St("advance"))
@@ -315,6 +326,8 @@ func (e Engine) Execute(t *testing.T, sc *kernel.Scenario, trace bool) *kernel.R
 		e.enumerate(sc, res, n, own, app, d, trace)
 		return res
 	}
+	wideAssets = int(sc.Cfg("wide_assets", 0))
+	defer func() { wideAssets = 0 }()
 	e.runSeq(sc.Property, n, own, app, sc.Steps, res, trace)
 	return res
 }
